@@ -10,7 +10,7 @@ use simkit::{GenCtx, PropertySpec, Rng, RunReport, Sim, Tier};
 #[derive(Serialize, Deserialize, Clone, Debug, PartialEq)]
 #[serde(tag = "t")]
 pub enum Step {
-    /// a caller starts get_record_from_network; quorum: 0 One, 1 Majority, 2 All, 3 N(2);
+    /// a caller starts get_record_from_network; quorum: 0 One, 1 Majority, 2 All, 3 N(2), 4.. N(1 + (q-4) % 8);
     /// target: expected version (index) or none
     Call { quorum: u8, target: Option<u8>, retry: bool },
     /// run the `sel`-th parked task (the callers' command sends)
@@ -50,7 +50,7 @@ impl Sim for GetRecordSim {
             modes: vec!["orderly", "adversarial"],
             quick_runs: 6_000,
             thorough_runs: 400_000,
-            rule: "One run = 1..4 callers of the real Network::get_record_from_network for one key (own quorum One/Majority/All/N(2), optional expected record) arriving before/between/after replies, and a seeded stream of kad progress events fed to the real handlers: FoundRecord from 0..8 peers holding 1..4 versions (opaque, registers incl. unverifiable ones, transaction sets, scratchpads valid/unsigned/forged/equal counters, mixed kinds), duplicates, and a terminal event (finished, not found, quorum failed, timeout). Mode orderly: every peer answers once, versions of one kind; mode adversarial: duplicates, late callers, mixed kinds, early terminals. Each caller's outcome is checked against its OWN quorum and target. Non-trivial = >=3 operations and (>=1 duplicated/late/terminal-before-quorum event or non-FIFO decision); distinct = fingerprint of the event and scheduling sequence.",
+            rule: "One run = 1..4 callers of the real Network::get_record_from_network for one key (own quorum One/Majority/All/N(1..8), optional expected record) arriving before/between/after replies, and a seeded stream of kad progress events fed to the real handlers: FoundRecord from 0..8 peers holding 1..4 versions (opaque, registers incl. unverifiable ones, transaction sets, scratchpads valid/unsigned/forged/equal counters, mixed kinds), duplicates, and a terminal event (finished, not found, quorum failed, timeout). Mode orderly: every peer answers once, versions of one kind; mode adversarial: duplicates, late callers, mixed kinds, early terminals. Each caller's outcome is checked against its OWN quorum and target. Non-trivial = >=3 operations and (>=1 duplicated/late/terminal-before-quorum event or non-FIFO decision); distinct = fingerprint of the event and scheduling sequence.",
             assumptions: vec![
                 "the simulator plays libp2p's kad query engine: it emits the same kad::Event values the engine emits (OutboundQueryProgressed with FoundRecord / FinishedWithNoAdditionalRecord / errors); the engine itself is not run",
                 "caller cancellation (dropping the future) is not injected",
@@ -88,10 +88,11 @@ impl Sim for GetRecordSim {
         let mut calls_left = n_callers;
         // swarm knobs: callers of one run often share a quorum, and runs differ in how often callers
         // expect a specific record (overlapping reads with equal quorum but different expectations)
-        let shared_quorum: Option<u8> = if rng.chance(1, 2) { Some(rng.below(4) as u8) } else { None };
+        let draw_q = |rng: &mut Rng| if rng.chance(1, 4) { 4 + rng.below(8) as u8 } else { rng.below(4) as u8 };
+        let shared_quorum: Option<u8> = if rng.chance(1, 2) { Some(draw_q(rng)) } else { None };
         let target_odds = *rng.pick(&[0u64, 1, 1, 2, 3]);
         let call = move |rng: &mut Rng, n_versions: u8, single: bool| Step::Call {
-            quorum: shared_quorum.unwrap_or_else(|| rng.below(4) as u8),
+            quorum: shared_quorum.unwrap_or_else(|| draw_q(rng)),
             target: if rng.chance(target_odds, 3) { Some(rng.below(n_versions as u64) as u8) } else { None },
             retry: single && rng.chance(1, 4),
         };
